@@ -21,6 +21,125 @@ ATOL = 1e-12
 RTOL = 1e-9
 COND_MAX = 1e12
 
+# ----------------------------------------------------------------------------------------------
+# tie (T): regenerate coq/Gen/C14_gen.v from the working tree (harness/c14_py2coq.py)
+# ----------------------------------------------------------------------------------------------
+import re
+import vlib
+
+GEN = os.path.join(vlib.COQ, "Gen", "C14_gen.v")
+METHOD_OF = {"plain_computeParams": "StrategyOnePlusLambda.computeParams",
+             "plain_update_scalar": "StrategyOnePlusLambda.update (scalar slice)",
+             "active_computeParams": "StrategyActiveOnePlusLambda.__init__ / _compute_lambda_parameters (parameters)",
+             "mo_computeParams": "StrategyMultiObjective.__init__ (parameters)",
+             "active_rank1_scalar": "StrategyActiveOnePlusLambda._rank1update (scalar slice)",
+             "active_p_succ": "StrategyActiveOnePlusLambda.update (success frequency)"}
+
+
+def _typechecks(txt):
+    """does the regenerated text compile?  -> (ok, line number of the first error or None)"""
+    import shutil
+    import subprocess
+    import tempfile
+    d = tempfile.mkdtemp(prefix="c14gen_")
+    try:
+        fn = os.path.join(d, "C14_gen_probe.v")
+        with open(fn, "w") as f:
+            f.write(txt)
+        p = subprocess.run(["timeout", "300", "coqc", "-Q", vlib.COQ, "DV", "-w", "none", fn], cwd=d,
+                           stdout=subprocess.PIPE, stderr=subprocess.STDOUT, text=True)
+        if p.returncode == 0:
+            return True, None
+        m = re.search(r'line (\d+), characters', p.stdout)
+        return ("Error" not in p.stdout), (int(m.group(1)) if m else None)   # killed without a Coq error: no verdict
+    finally:
+        shutil.rmtree(d, ignore_errors=True)
+
+
+def regen(repo=None):
+    """Returns (ok, message, status) -- status: function key -> None (translated) | Refuse (placeholder = the hand
+    model's term); ok is False when nothing could be translated.  A regenerated definition that does not type-check
+    counts as a refusal of that function."""
+    import c14_py2coq
+    repo = repo or vlib.REPO
+    forced = tuple(x for x in os.environ.get("C14_FORCE_REFUSE", "").split(",") if x)
+    extra = {}
+    try:
+        txt, status = c14_py2coq.translate_repo(repo, forced)
+        if os.path.exists(os.path.join(vlib.COQ, "Model", "C14_GenRt.vo")):
+            for _ in range(len(status)):
+                ok, line = _typechecks(txt)
+                if ok:
+                    break
+                lines = txt.split("\n")[:line or 0]
+                keys = [k for k in c14_py2coq.ORDER
+                        if any(l.startswith(c14_py2coq.FUNCS[k]["header"].split(" (")[0] + " ") for l in lines)]
+                bad = keys[-1] if keys else None
+                if bad is None or bad in extra:
+                    raise RuntimeError("regenerated text does not compile (line %s)" % line)
+                extra[bad] = c14_py2coq.Refuse("FunctionDef", "the regenerated definition does not type-check")
+                txt, status = c14_py2coq.translate_repo(repo, forced + tuple(extra))
+                for k, v in extra.items():
+                    status[k] = v
+    except Exception as e:  # noqa  (a translator crash is a refusal of everything: fail closed)
+        r = c14_py2coq.Refuse("Module", "translator error %s: %s" % (type(e).__name__, e))
+        txt, status = c14_py2coq.translate_source("\x00")     # all placeholders
+        status = {k: r for k in status}
+    with vlib.BuildLock():
+        os.makedirs(os.path.dirname(GEN), exist_ok=True)
+        old = open(GEN).read() if os.path.exists(GEN) else None
+        if old != txt:
+            with open(GEN, "w") as f:
+                f.write(txt)
+    done = [METHOD_OF[k] for k, v in status.items() if v is None]
+    refused = ["%s (%s)" % (METHOD_OF[k], v) for k, v in status.items() if v is not None]
+    msg = "regenerated: %s" % (", ".join(done) or "nothing")
+    if refused:
+        msg += "; translator refused: " + "; ".join(refused)
+    return bool(done), msg, status
+
+
+def tie_T(run):
+    """Regenerate, re-prove `regenerated = hand model` and the theorems on the regenerated definitions.
+    Returns (check function of the correspondence, requires, translated-but-not-proved flag)."""
+    ok, msg, status = regen()
+    refused = {k: v for k, v in status.items() if v is not None}
+    done = [METHOD_OF[k] for k, v in status.items() if v is None]
+    run.extra_cov["regenerated_functions"] = done
+    run.extra_cov["translator_refused"] = {METHOD_OF[k]: str(v) for k, v in refused.items()}
+    for k, v in refused.items():
+        run.notes.append("tie: correspondence-only (translator refused %s at line %s in %s: %s)"
+                         % (v.node, v.line, METHOD_OF[k], v.why))
+    if not ok:
+        run.extra_cov["tie"] = "correspondence-only (%s)" % msg
+        return "check", [], False
+    gen_ok = run.build_props(props="Props/C14_gen.v", extra=["Corr/C14_gen.v"])
+    if not gen_ok and run.broken and all("Error" not in (b.get("log") or "") for b in run.broken):
+        run.notes.append("build of the regenerated tie interrupted without a Coq error (killed?); retried once")
+        del run.broken[:]
+        run.obligations[:] = [o for o in run.obligations if not o["name"].startswith("C14_gen_")]
+        gen_ok = run.build_props(props="Props/C14_gen.v", extra=["Corr/C14_gen.v"])
+    if gen_ok:
+        run.notes.append("tie: regenerated (%s)" % ", ".join(done))
+        run.extra_cov["tie"] = ("translation (regenerated definitions proved equal to the hand model: %s) + correspondence%s"
+                                % (", ".join(done), "; correspondence-only for " + ", ".join(
+                                    sorted(METHOD_OF[k] for k in refused)) if refused else
+                                   "; correspondence-only for the matrix code (generate, covariance / factor / inverse "
+                                   "updates, selection)"))
+        run.trusted.append("translator harness/c14_py2coq.py and its signature table (source text of the scalar parameter / "
+                           "step-size code of deap/cma.py -> coq/Gen/C14_gen.v; the matrix-side statements are sliced away "
+                           "under a side-effect-freedom whitelist); the regenerated definitions are proved equal to the hand "
+                           "model over a real closed field (Proofs/C14_gen_equiv.v) and evaluated at binary64 against the "
+                           "implementation on every run")
+        return "check_both", ["From DV Require Import Corr.C14_gen."], False
+    run.extra_cov["tie"] = "translator succeeded but the regenerated definitions are no longer (provably) the model"
+    try:        # keep the offending text for the replay
+        with open(os.path.join(run.rundir, "C14_gen.v.broken"), "w") as f:
+            f.write(open(GEN).read())
+    except OSError:
+        pass
+    return "check", [], True
+
 
 # ----------------------------------------------------------------------------------------------
 # recording proxies (installed in the namespace of deap.cma only)
@@ -1252,6 +1371,10 @@ def main(run):
     # _select with C04's model of sortLogNondominated (obligations + Print Assumptions of Props/C14_log.v)
     if not run.broken:
         run.build_props(props="Props/C14_log.v")
+    # ---- tie (T): regenerate Gen/C14_gen.v from the working tree, re-prove `regenerated = model` and the theorems
+    gen_check, gen_reqs, gen_unproved = ("check", [], False)
+    if not run.broken:
+        gen_check, gen_reqs, gen_unproved = tie_T(run)
     rng = run.rng
     ctx = Ctx(run)
     np.seterr(all="ignore")
@@ -1295,6 +1418,23 @@ def main(run):
                "objective": ["sphere", "ellipsoid", "step"][h % 3], "constraints": specs, "steps": [0.0] * dim,
                "parent_mode": mode, "rounds": rounds, "seed": rng.randrange(2 ** 31)}
         cfg["send"] = (set(range(6)) | pick_send(rng, rounds, run.scale(8, 14))) if dim <= 6 else set()
+        run_active(ctx, cfg)
+    # fitness-less parent (bare numpy array) with a tight parent-relative constraint: the first generation mixes
+    # feasible and infeasible offspring while `hasattr(self.parent, "fitness")` is still false -- the branch
+    # `lambda_succ = len(valid_population)` of update (gap exposed by the regenerated tie: a count over the whole
+    # population there passed every generator)
+    import random
+    rb = random.Random("C14-bare-%d" % run.seed)      # own stream: the histories of the other families stay as they were
+    for h in range(run.scale(8, 24)):
+        lam = [2, 5, 10, 20][h % 4]
+        dim = rb.randint(2, 5)
+        sigma = rb.choice([0.3, 0.5, 1.0])
+        parent = [round(rb.uniform(-1.0, 2.0), 3) for _ in range(dim)]
+        e0 = [1.0] + [0.0] * (dim - 1)
+        specs = [{"coef": e0, "op": "lt", "b": parent[0] - [0.3, 0.0, -0.3][h % 3] * sigma}]
+        cfg = {"dim": dim, "lambda": lam, "sigma": sigma, "parent": parent, "objective": ["sphere", "step"][h % 2],
+               "constraints": specs, "steps": [0.0] * dim, "parent_mode": "bare", "rounds": 4,
+               "seed": rb.randrange(2 ** 31), "send": set(range(2))}
         run_active(ctx, cfg)
     # ---------------- hardening round: sequences, aliasing, value domains, rare routes, boundaries ----------------
     def short_send(r):
@@ -1461,9 +1601,26 @@ def main(run):
         cfg["send"] = pick_send(rng, rounds, run.scale(8, 20)) if small else set()
         run_mo(ctx, cfg)
 
+    if gen_unproved:
+        # the regenerated definitions are no longer provably the model: search beyond the regular ranges (dimension
+        # up to 48, lambda up to 80, mu up to 16) for an input on which the implementation leaves the property
+        nw = 0
+        for dim, lam in [(d_, l_) for d_ in (1, 2, 7, 10, 11, 12, 16, 25, 32, 48) for l_ in (1, 2, 20, 21, 24, 25, 26, 30, 50, 80)]:
+            base = {"dim": dim, "lambda": lam, "sigma": 0.5, "rounds": 3, "seed": rng.randrange(2 ** 31), "send": set(),
+                    "wide_search": True}
+            run_plain(ctx, dict(base, parent=rparent(dim), objective=["sphere", "step"][nw % 2]))
+            run_active(ctx, dict(base, parent=rparent(dim), objective="sphere", constraints=0, steps=[0.0] * dim,
+                                 parent_mode="feasible"))
+            mu = [1, 3, 16][nw % 3]
+            run_mo(ctx, dict(base, mu=mu, parents=[rparent(dim, -1.0, 1.0) for _ in range(mu)],
+                             objective="two_spheres"))
+            nw += 3
+        run.notes.append("tie (T) broke: %d short histories with dimension up to 48, lambda up to 80, mu up to 16 searched "
+                         "in addition" % nw)
     run.extra_cov["branches_exercised"] = ctx.branch
     n0 = len(run.disagreements)
-    kw = dict(shard=run.scale(24, 40), timeout=1500, requires=["From Coq Require Import PrimFloat."])
+    kw = dict(shard=run.scale(24, 40), timeout=1500, requires=["From Coq Require Import PrimFloat."] + gen_reqs,
+              check=gen_check)
     run.correspond("rounds", "C14", ctx.terms, ctx.cases, **kw)
     errs = [d for d in run.disagreements[n0:] if d.get("index") is None]
     if errs and all("Error" not in ((d.get("coq_error") or {}).get("log") or "") for d in errs):
@@ -1472,3 +1629,31 @@ def main(run):
         del run.disagreements[n0:]
         run.corr_groups.pop("rounds", None)
         run.correspond("rounds", "C14", ctx.terms, ctx.cases, **kw)
+    if gen_check == "check_both":
+        run.extra_cov["cases_also_evaluated_on_regenerated_definitions"] = sum(
+            1 for t in ctx.terms if t.split(" ", 1)[0] in ("CPlainParams", "CActParams", "CMoParams", "CPlainUpd", "CActUpd"))
+    if gen_unproved:
+        # translated but not provably the model: do the regenerated definitions at least agree with the implementation?
+        ok_, out = vlib.make_targets(["Corr/C14_gen.vo"])
+        if ok_:
+            idx = [i for i, t in enumerate(ctx.terms)
+                   if t.split(" ", 1)[0] in ("CPlainParams", "CActParams", "CMoParams", "CPlainUpd", "CActUpd")]
+            traces, ndis = run.traces, len(run.disagreements)
+            try:
+                bad = run.correspond("diagnosis_regenerated", "C14", [ctx.terms[i] for i in idx], [ctx.cases[i] for i in idx],
+                                     check="check_gen", shard=run.scale(24, 40),
+                                     requires=["From Coq Require Import PrimFloat.", "From DV Require Import Corr.C14_gen."])
+                errs = run.corr_groups.get("diagnosis_regenerated", {}).get("errors")
+                ng = None if errs else len(bad)
+            except Exception as e:  # noqa
+                ng = None
+                run.notes.append("diagnosis step failed: %r" % (e,))
+            finally:
+                run.traces = traces
+                del run.disagreements[ndis:]
+                run.corr_groups.pop("diagnosis_regenerated", None)
+            run.notes.append("diagnosis: the regenerated definitions (not provably equal to the model) disagree with the "
+                             "implementation on %s of %d parameter / (1+lambda)-update cases" % (ng, len(idx)))
+            run.extra_cov["regenerated_vs_implementation"] = {"sampled": len(idx), "disagree": ng}
+        else:
+            run.notes.append("diagnosis: the regenerated definitions do not compile: " + out[-400:])
